@@ -18,6 +18,7 @@ import (
 	"google.golang.org/grpc/mem"
 	"google.golang.org/protobuf/encoding/protowire"
 	"google.golang.org/protobuf/proto"
+	"pgregory.net/rapid"
 
 	"github.com/temporalio/s2s-proxy/vfshared"
 )
@@ -108,4 +109,130 @@ func c17DeepCell(t *testing.T, st *vfshared.Stats, part string) {
 		st.Violation(p, msg)
 		t.Fatalf("C17 violated: %s (replay %s)", msg, p)
 	}
+}
+
+// --- the nesting bound in front of the legacy decoders (repair of D38) ------------------------------------------------
+
+// vfNested encodes a chain of d nested non-empty length-delimited fields; deco[k] = (prefix, suffix) raw field bytes placed
+// around the nested field of level k (k = 0 is the outermost message). The innermost message holds one varint field.
+func vfNested(d int, num protowire.Number, deco map[int][2][]byte) []byte {
+	inner := protowire.AppendVarint(protowire.AppendTag(nil, 1, protowire.VarintType), 7)
+	size := make([]int, d+1) // size[k]: encoded size of the message at level k
+	size[d] = len(inner) + len(deco[d][0]) + len(deco[d][1])
+	for k := d - 1; k >= 0; k-- {
+		size[k] = len(deco[k][0]) + protowire.SizeTag(num) + protowire.SizeBytes(size[k+1]) + len(deco[k][1])
+	}
+	out := make([]byte, 0, size[0])
+	for k := 0; k < d; k++ {
+		out = append(out, deco[k][0]...)
+		out = protowire.AppendTag(out, num, protowire.BytesType)
+		out = protowire.AppendVarint(out, uint64(size[k+1]))
+	}
+	out = append(out, deco[d][0]...)
+	out = append(out, inner...)
+	out = append(out, deco[d][1]...)
+	for k := d - 1; k >= 0; k-- {
+		out = append(out, deco[k][1]...)
+	}
+	return out
+}
+
+// TestVF_C17_Nesting: CheckNestingDepth, the bound the repair path applies before it hands bytes to the unbounded legacy
+// decoders, is exact: a well-formed encoding is refused if and only if it nests more than maxWireNesting (10 000) non-empty
+// length-delimited fields, whatever scalar, string-like or malformed-as-message siblings surround the chain.
+func TestVF_C17_Nesting(t *testing.T) {
+	const part = "nesting"
+	if rp := vfshared.ReplayPart(); rp != "" && rp != part {
+		t.Skip()
+	}
+	st := vfshared.NewStats("C17", part, "hand-encoded chains of d nested length-delimited fields (d in 0-20, bound-10..bound+10, 1.05 x bound, 3 x bound, bound = the code's maxWireNesting = 10 000; field numbers 1-2047; up to 5 levels decorated with varint/fixed/leaf-bytes siblings before and after the nested field) through CheckNestingDepth; oracle: refused iff the deepest length-delimited content lies below the bound; non-trivial = d within 10 of the bound or decorated")
+	defer st.Flush()
+	type nestCase struct {
+		D    int              `json:"d"`
+		Num  int              `json:"num"`
+		Deco map[int][]string `json:"deco"` // level -> [prefix hex, suffix hex]
+	}
+	run := func(tt interface{ Fatalf(string, ...any) }, c nestCase) {
+		deco := map[int][2][]byte{}
+		for k, v := range c.Deco {
+			var p, s []byte
+			fmt.Sscanf(v[0], "%x", &p)
+			fmt.Sscanf(v[1], "%x", &s)
+			deco[k] = [2][]byte{p, s}
+		}
+		b := vfNested(c.D, protowire.Number(c.Num), deco)
+		err := CheckNestingDepth(b)
+		near := c.D >= maxWireNesting-10 && c.D <= maxWireNesting+10
+		st.Case(vfshared.Fingerprint(c), near || len(c.Deco) > 0, map[bool]string{true: "refused", false: "accepted"}[err != nil])
+		// the content of a non-empty length-delimited field at level k sits at level k+1, whether it is a message or not
+		// (the scan knows no schema): a non-empty leaf among the siblings of level k makes the encoding k+1 deep
+		eff := c.D
+		for k, v := range c.Deco {
+			if k+1 > eff && (strings.Contains(v[0], "01ff") || strings.Contains(v[1], "01ff")) {
+				eff = k + 1
+			}
+		}
+		if (err != nil) != (eff > maxWireNesting) {
+			p := vfshared.WriteReplay("C17", part, c)
+			msg := fmt.Sprintf("CheckNestingDepth on a chain of %d nested fields, deepest length-delimited content at level %d (%d bytes): error=%v, want refused iff that level > %d (maxWireNesting)", c.D, eff, len(b), err, maxWireNesting)
+			st.Violation(p, msg)
+			tt.Fatalf("C17 violated: %s (replay %s)", msg, p)
+		}
+	}
+	if f := vfshared.ReplayFile(); f != "" {
+		var c nestCase
+		if _, err := vfshared.LoadReplay(f, &c); err != nil {
+			t.Fatal(err)
+		}
+		run(t, c)
+		return
+	}
+	sib := func(rt *rapid.T, label string) []byte {
+		var out []byte
+		for i, n := 0, rapid.IntRange(0, 3).Draw(rt, label+"n"); i < n; i++ {
+			num := protowire.Number(rapid.IntRange(1, 2047).Draw(rt, label+"num"))
+			switch rapid.IntRange(0, 4).Draw(rt, label+"kind") {
+			case 0:
+				out = protowire.AppendVarint(protowire.AppendTag(out, num, protowire.VarintType), rapid.Uint64().Draw(rt, label+"v"))
+			case 1:
+				out = protowire.AppendFixed32(protowire.AppendTag(out, num, protowire.Fixed32Type), rapid.Uint32().Draw(rt, label+"v32"))
+			case 2:
+				out = protowire.AppendFixed64(protowire.AppendTag(out, num, protowire.Fixed64Type), rapid.Uint64().Draw(rt, label+"v64"))
+			case 3: // a bytes field that is not a message (truncated tag varint)
+				out = protowire.AppendBytes(protowire.AppendTag(out, num, protowire.BytesType), []byte{0xff})
+			default: // an empty length-delimited field
+				out = protowire.AppendBytes(protowire.AppendTag(out, num, protowire.BytesType), nil)
+			}
+		}
+		return out
+	}
+	// the bound itself is the repository's choice (the standard decoder's limit today); what C17 needs from it: ordinary
+	// messages (real ones nest a few dozen levels) are never refused, and it is far below the depth at which the legacy
+	// decoders overflow the stack (the 2 000 000-link cells of the codec and blob parts decide that directly)
+	if maxWireNesting < 100 || maxWireNesting > 100000 {
+		p := vfshared.WriteReplay("C17", part, nestCase{D: maxWireNesting})
+		msg := fmt.Sprintf("the nesting bound in front of the legacy decoders is %d: outside [100, 100 000]", maxWireNesting)
+		st.Violation(p, msg)
+		t.Fatalf("C17 violated: %s (replay %s)", msg, p)
+	}
+	rapid.Check(t, func(rt *rapid.T) {
+		var c nestCase
+		switch rapid.IntRange(0, 9).Draw(rt, "class") {
+		case 0, 1, 2:
+			c.D = rapid.IntRange(0, 20).Draw(rt, "d")
+		case 3, 4, 5, 6, 7:
+			c.D = rapid.IntRange(maxWireNesting-10, maxWireNesting+10).Draw(rt, "dnear")
+		case 8:
+			c.D = maxWireNesting + maxWireNesting/20
+		default:
+			c.D = 3 * maxWireNesting
+		}
+		c.Num = rapid.SampledFrom([]int{1, 2, 4, 15, 16, 2047}).Draw(rt, "num")
+		c.Deco = map[int][]string{}
+		for i, n := 0, rapid.IntRange(0, 5).Draw(rt, "ndeco"); i < n; i++ {
+			k := rapid.IntRange(0, c.D).Draw(rt, "level")
+			c.Deco[k] = []string{fmt.Sprintf("%x", sib(rt, "pre")), fmt.Sprintf("%x", sib(rt, "post"))}
+		}
+		run(rt, c)
+	})
 }
